@@ -14,7 +14,8 @@ Require Import Base.Tok Base.Iter Gen.Types Gen.Consts Model.Packet Model.Pool M
 Import ListNotations.
 Open Scope Z_scope.
 
-(* kinds 10..12 are 0..2 with a reader that returns io.EOF together with the last bytes: same model *)
+(* kinds 10..12 are 0..2 with a reader that returns io.EOF together with the last bytes; +20 / +40: the injected fault
+   wraps io.EOF / io.ErrUnexpectedEOF (still a fault, not end of input): same model *)
 Definition kind_of (z : Z) : rkind := let z := z mod 10 in if z =? 1 then Seekable else if z =? 2 then Bufio else Plain.
 
 Definition zmem (x : Z) (l : list Z) : bool := existsb (Z.eqb x) l.
